@@ -904,7 +904,7 @@ class _PairDomain(Domain):
                 return {f'ITEM[{e.slice.value}]'}
             return {'?'}
         if isinstance(e, ast.IfExp):
-            t = self.truth(e.test)
+            t = self.truth(e.test, st)
             if t is True:
                 return self.ev(e.body, st)
             if t is False:
@@ -912,12 +912,19 @@ class _PairDomain(Domain):
             return self.ev(e.body, st) | self.ev(e.orelse, st)
         return {'?'}
 
-    def truth(self, e):
+    def truth(self, e, st=None):
         if isinstance(e, ast.UnaryOp) and isinstance(e.op, ast.Not):
-            v = self.truth(e.operand)
+            v = self.truth(e.operand, st)
             return None if v is None else not v
+        if isinstance(e, ast.Name) and st is not None:
+            v = st.env.get(e.id)
+            if v == ('TRUE',):
+                return True
+            if v == ('FALSE',):
+                return False
+            return None
         if isinstance(e, ast.BoolOp):
-            vals = [self.truth(v) for v in e.values]
+            vals = [self.truth(v, st) for v in e.values]
             if isinstance(e.op, ast.And):
                 if any(v is False for v in vals):
                     return False
@@ -934,7 +941,7 @@ class _PairDomain(Domain):
         return None
 
     def branch(self, test, st):
-        v = self.truth(test)
+        v = self.truth(test, st)
         if v is None:
             return [(True, st), (False, st)]
         return [(v, st)]
@@ -943,6 +950,14 @@ class _PairDomain(Domain):
         return []
 
     def effects(self, stmt, st):
+        if isinstance(stmt, ast.Assign) and len(stmt.targets) == 1 and \
+                isinstance(stmt.targets[0], ast.Name):
+            t = self.truth(stmt.value, st)
+            if t is not None:
+                st = st.copy()
+                st.env[stmt.targets[0].id] = ('TRUE',) if t \
+                    else ('FALSE',)
+                return st
         for c in ast.walk(stmt):
             if isinstance(c, ast.Call) and isinstance(
                     c.func, ast.Attribute) and c.func.attr == 'append' and \
